@@ -660,8 +660,55 @@ def add_additional_metrics(  # noqa: D103
         ))
 
 
+def _verif_phase(name: str) -> None:
+    """Mark a phase boundary of ``_run`` for the external verification harness.
+
+    This is a no-op unless the environment variable ``SE2P_PYNGUIN_VERIF`` is ``1`` and
+    ``SE2P_PYNGUIN_VERIF_STATE`` names a directory.  Then the phase name is appended to
+    ``<state>/events`` and, if ``SE2P_PYNGUIN_VERIF_CRASH`` (a comma-separated list of
+    ``<phase>[:<count>[:KILL]]``) names this phase, the process kills itself while the
+    counter in ``<state>/crashes_left.<phase>`` (initially ``count``, default 1) is positive.
+
+    Args:
+        name: The name of the phase that is about to start
+    """
+    import os  # noqa: PLC0415
+
+    if os.environ.get("SE2P_PYNGUIN_VERIF") != "1":
+        return
+    state = os.environ.get("SE2P_PYNGUIN_VERIF_STATE")
+    if not state:
+        return
+    use_sigkill = False
+    try:
+        with Path(state, "events").open("a", encoding="utf-8") as events:
+            events.write(f"{os.getpid()} {name}\n")
+        for spec in os.environ.get("SE2P_PYNGUIN_VERIF_CRASH", "").split(","):
+            phase, _, rest = spec.partition(":")
+            if phase != name:
+                continue
+            count, _, how = rest.partition(":")
+            counter = Path(state, f"crashes_left.{name}")
+            left = int(counter.read_text()) if counter.exists() else int(count or 1)
+            if left <= 0:
+                return
+            counter.write_text(str(left - 1))
+            use_sigkill = how == "KILL"
+            break
+        else:
+            return
+    except (OSError, ValueError):
+        return
+    if use_sigkill:
+        import signal  # noqa: PLC0415
+
+        os.kill(os.getpid(), signal.SIGKILL)
+    os._exit(70)
+
+
 def _run() -> ReturnCode:  # noqa: C901, PLR0915
     _verify_config()
+    _verif_phase("setup")
     if (setup_result := _setup_and_check()) is None:
         return ReturnCode.SETUP_FAILED
     executor, test_cluster, constant_provider = setup_result
@@ -678,6 +725,7 @@ def _run() -> ReturnCode:  # noqa: C901, PLR0915
         executor, test_cluster, constant_provider
     )
     _LOGGER.info("Start generating test cases")
+    _verif_phase("search")
     generation_result = algorithm.generate_tests()
     if algorithm.resources_left():
         _LOGGER.info("Algorithm stopped before using all resources.")
@@ -695,6 +743,7 @@ def _run() -> ReturnCode:  # noqa: C901, PLR0915
     _track_search_metrics(algorithm, generation_result, coverage_metrics)
 
     # Generate assertions FIRST
+    _verif_phase("assertions")
     _generate_assertions(executor, generation_result, test_cluster)
 
     # Minimize assertions if configured (requires re-instrumentation for checked_instructions)
@@ -709,6 +758,7 @@ def _run() -> ReturnCode:  # noqa: C901, PLR0915
         _minimize_assertions(generation_result)
 
     # Statement minimization LAST (now assertion-aware)
+    _verif_phase("minimize")
     try:
         _LOGGER.info("Minimizing test cases")
         _minimize(generation_result, algorithm)
@@ -728,6 +778,7 @@ def _run() -> ReturnCode:  # noqa: C901, PLR0915
     executor.subject_properties.instrumentation_tracer.disable()
 
     # Export the generated test suites
+    _verif_phase("export")
     if config.configuration.test_case_output.export_strategy == config.ExportStrategy.PY_TEST:
         try:
             _export_chromosome(
@@ -765,6 +816,7 @@ def _run() -> ReturnCode:  # noqa: C901, PLR0915
         except Exception as ex:
             _LOGGER.exception("Export to PyTest failed: %s", ex)
 
+    _verif_phase("report")
     if config.configuration.statistics_output.create_coverage_report:
         try:
             coverage_report = get_coverage_report(
